@@ -485,9 +485,21 @@ fn gen_bdf_exhaustive(thorough: bool, emit: &mut dyn FnMut(String)) {
                 if bus == 0x5a || thorough {
                     emit(format!("aerrp/0,1,{},{},{}/-/-/-", bus, dev, fun));
                     emit(format!("aerbr/0,1,{},{},{}/-/-/-", bus, dev, fun));
+                    emit(format!("rdpas/{},{},{},{},1,{}/-/-/-", 0x4321, bus, dev, fun, 0xfeed_0000u64));
                 }
             }
         }
+    }
+    // just outside the domain: device 32.., function 8.. must be refused by every packer
+    for (dev, fun) in [(32u64, 0u64), (31, 8), (32, 8), (33, 1), (64, 0), (255, 7), (0, 9), (0, 16), (1, 255), (255, 255)] {
+        let bus = 0x5a;
+        emit(format!("pciiommu/{},{},{},{}/-/-/-", 0x1234, bus, dev, fun));
+        emit(format!("iommu/{},0,{},1,{},{},{},{},0,0,0/-/-/-", 7, 0x8000_0000u64, 0xbeef, bus, dev, fun));
+        emit(format!("gi/{},1,{},{},{},{}/-/-/en", 3, 0xa55a, bus, dev, fun));
+        emit(format!("aerdev/0,1,{},{},{}/-/-/-", bus, dev, fun));
+        emit(format!("aerrp/0,1,{},{},{}/-/-/-", bus, dev, fun));
+        emit(format!("aerbr/0,1,{},{},{}/-/-/-", bus, dev, fun));
+        emit(format!("rdpas/{},{},{},{},1,{}/-/-/-", 0x4321, bus, dev, fun, 0xfeed_0000u64));
     }
 }
 
